@@ -175,7 +175,8 @@ def catalogue : List (String × Disp) := [
   ("Font.instantiateDataSet", .handedOut .dataSet),
   ("Font.instantiateGuideline", .handedOut .guideline),
   ("Font.insertGuideline?isinstance", .guard .guideline),
-  -- `newInfo = Info()` in reloadInfo: read from disk, compared attribute by attribute, dropped
+  -- `newInfo = _ReloadedInfo()` in reloadInfo (a subclass of Info defined in font.py, seen by the extractor as a
+  -- hard-coded `Info`): read from disk, compared attribute by attribute, dropped
   ("Font.reloadInfo", .scratch),
   ("LayerSet.instantiateLayer", .handedOut .layer),
   ("Layer.instantiateGlyphObject", .handedOut .glyph),
